@@ -316,41 +316,74 @@ EXPECTED_ARITH = {
 }
 
 
-def assignment_effect(fn: ast.FunctionDef) -> Rat:
+def assignment_effect(fn: ast.FunctionDef, as_lambda=None) -> Rat:
     """Symbolically run a helper `def f(target, v): ... target.set_value(expr)`; returns expr over (old, v).
-    Straight-line statements, `if <guard>: raise` prefixes and local assignments are interpreted."""
+    Straight-line statements, `if <guard>: raise` prefixes, local assignments, copies of the target and binary function values
+    (`as_lambda(expr)` -> two-parameter lambda or None, e.g. operator.add) applied to arithmetic arguments are interpreted."""
     params = [a.arg for a in fn.args.args]
     if len(params) != 2:
         raise Uninterpretable(f"{fn.name}: two parameters expected")
     tgt, val = params
     env: Dict[str, Rat] = {val: sym("v")}
     result: List[Rat] = []
+    targets = {tgt}
+    callables: Dict[str, ast.Lambda] = {}
+
+    def callable_of(e):
+        if isinstance(e, ast.Name) and e.id in callables:
+            return callables[e.id]
+        if isinstance(e, ast.Lambda):
+            return e
+        return as_lambda(e) if as_lambda is not None and not (isinstance(e, ast.Name) and e.id in env) else None
 
     def hook(e):
         # target.value / target.stored_value -> old
-        if isinstance(e, ast.Attribute) and isinstance(e.value, ast.Name) and e.value.id == tgt and e.attr in ("value", "stored_value"):
+        if isinstance(e, ast.Attribute) and isinstance(e.value, ast.Name) and e.value.id in targets and e.attr in ("value", "stored_value"):
             return sym("old")
+        if isinstance(e, ast.Call) and len(e.args) == 2 and not e.keywords:
+            lam = callable_of(e.func)
+            if lam is not None:
+                ps = lambda_params(lam)
+                if len(ps) == 2:
+                    return eval_arith(lam.body, {ps[0]: eval_arith(e.args[0], env, hook), ps[1]: eval_arith(e.args[1], env, hook)})
         return None
+
+    def bind(name, value):
+        if isinstance(value, ast.Name) and value.id in targets:
+            targets.add(name)
+            return
+        targets.discard(name)
+        lam = callable_of(value)
+        if lam is not None:
+            callables[name] = lam
+            return
+        callables.pop(name, None)
+        env[name] = eval_arith(value, env, hook)
 
     def run(stmts):
         for s in stmts:
             if isinstance(s, ast.Expr) and isinstance(s.value, ast.Constant):
                 continue  # docstring
+            if isinstance(s, ast.Pass):
+                continue
+            if isinstance(s, ast.If) and isinstance(s.test, ast.Constant) and s.test.value is True and not s.orelse:
+                run(s.body)     # block of a helper analysed in place
+                continue
             if isinstance(s, ast.Assign) and len(s.targets) == 1 and isinstance(s.targets[0], ast.Name):
-                env[s.targets[0].id] = eval_arith(s.value, env, hook)
+                bind(s.targets[0].id, s.value)
                 continue
             if isinstance(s, ast.AnnAssign) and isinstance(s.target, ast.Name) and s.value is not None:
-                env[s.target.id] = eval_arith(s.value, env, hook)
+                bind(s.target.id, s.value)
                 continue
             if isinstance(s, ast.Assign) and len(s.targets) == 1 and isinstance(s.targets[0], ast.Attribute) \
-                    and isinstance(s.targets[0].value, ast.Name) and s.targets[0].value.id == tgt \
+                    and isinstance(s.targets[0].value, ast.Name) and s.targets[0].value.id in targets \
                     and s.targets[0].attr == "stored_value":
                 result.append(eval_arith(s.value, env, hook))
                 continue
             if isinstance(s, ast.Expr) and isinstance(s.value, ast.Call):
                 c = s.value
                 if isinstance(c.func, ast.Attribute) and c.func.attr == "set_value" and isinstance(c.func.value, ast.Name) \
-                        and c.func.value.id == tgt and len(c.args) == 1:
+                        and c.func.value.id in targets and len(c.args) == 1:
                     result.append(eval_arith(c.args[0], env, hook))
                     continue
                 if "logger" in ast.unparse(c.func) or "logging" in ast.unparse(c.func):
